@@ -9,6 +9,15 @@ CLAIMED = {
  "C02": ("metamorphic relation over histories (proptest vec of prior compilations incl. identifier-permuting sheets), fresh-process repeats and concurrent thread storms; oracle = byte equality with the fresh-thread run; unique-id() distinctness",
          "Sampling of histories, process repeats and real thread interleavings; a green run means no dependence on earlier compilations, hash seeds or concurrent threads was observed among the generated cases beyond the listed known findings.",
          "2/C02"),
+ "C06": ("metamorphic relation expanded vs compressed over the whole corpus (enumerated) and proptest-generated value-heavy sheets; oracle = independent CSS tokenizer/canonicaliser (numbers by exact decimal value, colours as rgba), textual equality of selectors, property names, string contents and logger messages",
+         "Sampling plus complete enumeration of the golden corpus; a green run means the two styles described the same CSS for every explored input outside the listed known finding (style-dependent interpolation).",
+         "2/C06"),
+ "C13": ("generated virtual file-system layouts (proptest) x import URLs x load paths x @import/@use/@forward; oracle = independent resolution model written from the property text + recording Fs (every call must be a candidate of the search) + real-disk decoys",
+         "Sampling of layouts with shrinking; a green run means the loaded file, the error site and every Fs call agreed with the documented search order for all generated layouts.",
+         "2/C13"),
+ "C17": ("exhaustive enumeration of single-query pairs/triples/list pairs (quick) plus proptest-generated list pairs/triples (thorough); oracle = independent media-query parser and truth-table evaluator over media type x feature assignments",
+         "Quick tier enumerates its finite domain completely (exhaustive: true); thorough adds sampled list pairs/triples. Holds for the bounded query alphabet only.",
+         "2/C17"),
 }
 
 NOT_YET = {}
